@@ -1323,6 +1323,14 @@ def check_c02(pid, tier, build, props):
                         "(%d meet them), first: %r" % (lht["plain_rotations_or_early_returns_not_meeting_them"],
                                        lht["plain_rotations_meeting_path_theorem_hypotheses"] + lht["early_returns_meeting_path_theorem_hypotheses"],
                                        lht["plain_rotation_unmet_examples"][:1]))
+    if lht.get("calls_with_several_headers_not_meeting_them"):
+        problems.append("the hypotheses of the universal path theorem for the rotation of a loop with several headers at "
+                        "any level (UniHierApplic.walk_pre_uni) do not hold - or the hierarchy the theorem speaks about "
+                        "is not the one the implementation produced - on %d such calls the pipeline makes whose entries "
+                        "are blocks (%d meet them), first: %r"
+                        % (lht["calls_with_several_headers_not_meeting_them"],
+                           lht["unified_rotations_meeting_path_theorem_hypotheses"],
+                           lht["several_headers_unmet_examples"][:1]))
     from . import ibcalls
     ibt = ibcalls.tie(tier, common.seed())
     ib_tie_ok = ibt["mismatch_count"] == 0 and not ibt["harness_errors"] and ibt["agree"] > 0
